@@ -33,6 +33,9 @@ func sqUnit(x string, elem *Sort) string   { return "(sq_unit_" + sqID(elem) + "
 func sqEmpty(elem *Sort) string            { return "sq_empty_" + sqID(elem) }
 func sqEq(a, b string, elem *Sort) string  { return "(sq_eq_" + sqID(elem) + " " + a + " " + b + ")" }
 func sqHas(s, x string, elem *Sort) string { return "(sq_has_" + sqID(elem) + " " + s + " " + x + ")" }
+func sqUpd(t, i, x string, elem *Sort) string {
+	return "(sq_upd_" + sqID(elem) + " " + t + " " + i + " " + x + ")"
+}
 func sqExt(t, lo, n string, elem *Sort) string {
 	return "(sq_ext_" + sqID(elem) + " " + t + " " + lo + " " + n + ")"
 }
@@ -80,6 +83,7 @@ const seqAxioms = `
 (declare-fun sq_unit_$I ($X) Sq_$I)
 (declare-fun sq_app_$I (Sq_$I Sq_$I) Sq_$I)
 (declare-fun sq_ext_$I (Sq_$I Int Int) Sq_$I)
+(declare-fun sq_upd_$I (Sq_$I Int $X) Sq_$I)
 (declare-fun sq_eq_$I (Sq_$I Sq_$I) Bool)
 (declare-fun sq_has_$I (Sq_$I $X) Bool)
 (declare-fun sq_idx_$I (Sq_$I $X) Int)
@@ -110,6 +114,11 @@ const seqAxioms = `
    (= (sq_ext_$I (sq_ext_$I s lo n) lo2 n2) (sq_ext_$I s (+ lo lo2) n2)))
    :pattern ((sq_ext_$I (sq_ext_$I s lo n) lo2 n2)))))
 (assert (forall ((a Sq_$I) (b Sq_$I)) (! (and (= (sq_ext_$I (sq_app_$I a b) 0 (sq_len_$I a)) a) (= (sq_ext_$I (sq_app_$I a b) (sq_len_$I a) (sq_len_$I b)) b)) :pattern ((sq_app_$I a b)))))
+(assert (forall ((s Sq_$I) (i Int) (x $X)) (! (= (sq_len_$I (sq_upd_$I s i x)) (sq_len_$I s)) :pattern ((sq_upd_$I s i x)))))
+(assert (forall ((s Sq_$I) (i Int) (x $X) (j Int)) (! (=> (and (<= 0 i) (< i (sq_len_$I s)) (<= 0 j) (< j (sq_len_$I s)))
+   (= (sq_nth_$I (sq_upd_$I s i x) j) (ite (= j i) x (sq_nth_$I s j))))
+   :pattern ((sq_nth_$I (sq_upd_$I s i x) j)))))
+(assert (forall ((s Sq_$I) (i Int) (x $X)) (! (=> (and (<= 0 i) (< i (sq_len_$I s))) (= (sq_nth_$I (sq_upd_$I s i x) i) x)) :pattern ((sq_upd_$I s i x)))))
 (assert (forall ((a Sq_$I) (b Sq_$I)) (! (= (sq_eq_$I a b)
    (and (= (sq_len_$I a) (sq_len_$I b))
         (forall ((i Int)) (! (=> (and (<= 0 i) (< i (sq_len_$I a))) (= (sq_nth_$I a i) (sq_nth_$I b i))) :pattern ((sq_nth_$I a i)) :pattern ((sq_nth_$I b i))))))
